@@ -89,4 +89,101 @@ theorem source_glue_match :
                (CC.Src.src_threefish1024_with_tweak key 0 0).trans (CC.Src.src_threefish1024_new key).symm⟩,
    CC.Src.src_threefish_trait_impls, CC.Src.src_threefish_structs⟩
 
+/-- **End to end (regenerated code only).**  Only REGENERATED definitions (`CC.Gen.Kernels.*`, printed from
+    block-ciphers/threefish/src/lib.rs on every run) occur in this statement — no hand-written model: for the three
+    `impl_threefish!` instantiations and both expansions of `unroll8!` / `unroll8_rev!`, every key, every tweak and every
+    block of the cipher's block length, `c.decrypt_block(c.encrypt_block(b)) = b` with `c = with_tweak(key, t0, t1)`.
+    (`dec_enc` rewritten with `CC.Src.src_threefish*`.) -/
+theorem generated_dec_enc (key : List (BitVec 8)) (t0 t1 : BitVec 64) (blk : List (BitVec 8)) :
+    (blk.length = 32 →
+      CC.Gen.Kernels.threefish256_decrypt_block (CC.Gen.Kernels.threefish256_with_tweak key t0 t1)
+        (CC.Gen.Kernels.threefish256_encrypt_block (CC.Gen.Kernels.threefish256_with_tweak key t0 t1) blk) = blk) ∧
+    (blk.length = 32 →
+      CC.Gen.Kernels.threefish256_decrypt_block_no_unroll (CC.Gen.Kernels.threefish256_with_tweak key t0 t1)
+        (CC.Gen.Kernels.threefish256_encrypt_block_no_unroll (CC.Gen.Kernels.threefish256_with_tweak key t0 t1) blk) = blk) ∧
+    (blk.length = 64 →
+      CC.Gen.Kernels.threefish512_decrypt_block (CC.Gen.Kernels.threefish512_with_tweak key t0 t1)
+        (CC.Gen.Kernels.threefish512_encrypt_block (CC.Gen.Kernels.threefish512_with_tweak key t0 t1) blk) = blk) ∧
+    (blk.length = 64 →
+      CC.Gen.Kernels.threefish512_decrypt_block_no_unroll (CC.Gen.Kernels.threefish512_with_tweak key t0 t1)
+        (CC.Gen.Kernels.threefish512_encrypt_block_no_unroll (CC.Gen.Kernels.threefish512_with_tweak key t0 t1) blk) = blk) ∧
+    (blk.length = 128 →
+      CC.Gen.Kernels.threefish1024_decrypt_block (CC.Gen.Kernels.threefish1024_with_tweak key t0 t1)
+        (CC.Gen.Kernels.threefish1024_encrypt_block (CC.Gen.Kernels.threefish1024_with_tweak key t0 t1) blk) = blk) ∧
+    (blk.length = 128 →
+      CC.Gen.Kernels.threefish1024_decrypt_block_no_unroll (CC.Gen.Kernels.threefish1024_with_tweak key t0 t1)
+        (CC.Gen.Kernels.threefish1024_encrypt_block_no_unroll (CC.Gen.Kernels.threefish1024_with_tweak key t0 t1) blk) = blk) := by
+  refine ⟨?_, ?_, ?_, ?_, ?_, ?_⟩
+  · intro hb
+    rw [← CC.Src.src_threefish256_decrypt_block, ← CC.Src.src_threefish256_encrypt_block,
+      ← CC.Src.src_threefish256_with_tweak]
+    exact dec_enc .unrolled tf256 (by simp) key t0 t1 blk hb
+  · intro hb
+    rw [← CC.Src.src_threefish256_decrypt_block_no_unroll, ← CC.Src.src_threefish256_encrypt_block_no_unroll,
+      ← CC.Src.src_threefish256_with_tweak]
+    exact dec_enc .loop tf256 (by simp) key t0 t1 blk hb
+  · intro hb
+    rw [← CC.Src.src_threefish512_decrypt_block, ← CC.Src.src_threefish512_encrypt_block,
+      ← CC.Src.src_threefish512_with_tweak]
+    exact dec_enc .unrolled tf512 (by simp) key t0 t1 blk hb
+  · intro hb
+    rw [← CC.Src.src_threefish512_decrypt_block_no_unroll, ← CC.Src.src_threefish512_encrypt_block_no_unroll,
+      ← CC.Src.src_threefish512_with_tweak]
+    exact dec_enc .loop tf512 (by simp) key t0 t1 blk hb
+  · intro hb
+    rw [← CC.Src.src_threefish1024_decrypt_block, ← CC.Src.src_threefish1024_encrypt_block,
+      ← CC.Src.src_threefish1024_with_tweak]
+    exact dec_enc .unrolled tf1024 (by simp) key t0 t1 blk hb
+  · intro hb
+    rw [← CC.Src.src_threefish1024_decrypt_block_no_unroll, ← CC.Src.src_threefish1024_encrypt_block_no_unroll,
+      ← CC.Src.src_threefish1024_with_tweak]
+    exact dec_enc .loop tf1024 (by simp) key t0 t1 blk hb
+
+/-- **End to end (regenerated code only).**  `c.encrypt_block(c.decrypt_block(b)) = b`, same quantifiers as
+    `generated_dec_enc`.  (`enc_dec` rewritten with `CC.Src.src_threefish*`.) -/
+theorem generated_enc_dec (key : List (BitVec 8)) (t0 t1 : BitVec 64) (blk : List (BitVec 8)) :
+    (blk.length = 32 →
+      CC.Gen.Kernels.threefish256_encrypt_block (CC.Gen.Kernels.threefish256_with_tweak key t0 t1)
+        (CC.Gen.Kernels.threefish256_decrypt_block (CC.Gen.Kernels.threefish256_with_tweak key t0 t1) blk) = blk) ∧
+    (blk.length = 32 →
+      CC.Gen.Kernels.threefish256_encrypt_block_no_unroll (CC.Gen.Kernels.threefish256_with_tweak key t0 t1)
+        (CC.Gen.Kernels.threefish256_decrypt_block_no_unroll (CC.Gen.Kernels.threefish256_with_tweak key t0 t1) blk) = blk) ∧
+    (blk.length = 64 →
+      CC.Gen.Kernels.threefish512_encrypt_block (CC.Gen.Kernels.threefish512_with_tweak key t0 t1)
+        (CC.Gen.Kernels.threefish512_decrypt_block (CC.Gen.Kernels.threefish512_with_tweak key t0 t1) blk) = blk) ∧
+    (blk.length = 64 →
+      CC.Gen.Kernels.threefish512_encrypt_block_no_unroll (CC.Gen.Kernels.threefish512_with_tweak key t0 t1)
+        (CC.Gen.Kernels.threefish512_decrypt_block_no_unroll (CC.Gen.Kernels.threefish512_with_tweak key t0 t1) blk) = blk) ∧
+    (blk.length = 128 →
+      CC.Gen.Kernels.threefish1024_encrypt_block (CC.Gen.Kernels.threefish1024_with_tweak key t0 t1)
+        (CC.Gen.Kernels.threefish1024_decrypt_block (CC.Gen.Kernels.threefish1024_with_tweak key t0 t1) blk) = blk) ∧
+    (blk.length = 128 →
+      CC.Gen.Kernels.threefish1024_encrypt_block_no_unroll (CC.Gen.Kernels.threefish1024_with_tweak key t0 t1)
+        (CC.Gen.Kernels.threefish1024_decrypt_block_no_unroll (CC.Gen.Kernels.threefish1024_with_tweak key t0 t1) blk) = blk) := by
+  refine ⟨?_, ?_, ?_, ?_, ?_, ?_⟩
+  · intro hb
+    rw [← CC.Src.src_threefish256_encrypt_block, ← CC.Src.src_threefish256_decrypt_block,
+      ← CC.Src.src_threefish256_with_tweak]
+    exact enc_dec .unrolled tf256 (by simp) key t0 t1 blk hb
+  · intro hb
+    rw [← CC.Src.src_threefish256_encrypt_block_no_unroll, ← CC.Src.src_threefish256_decrypt_block_no_unroll,
+      ← CC.Src.src_threefish256_with_tweak]
+    exact enc_dec .loop tf256 (by simp) key t0 t1 blk hb
+  · intro hb
+    rw [← CC.Src.src_threefish512_encrypt_block, ← CC.Src.src_threefish512_decrypt_block,
+      ← CC.Src.src_threefish512_with_tweak]
+    exact enc_dec .unrolled tf512 (by simp) key t0 t1 blk hb
+  · intro hb
+    rw [← CC.Src.src_threefish512_encrypt_block_no_unroll, ← CC.Src.src_threefish512_decrypt_block_no_unroll,
+      ← CC.Src.src_threefish512_with_tweak]
+    exact enc_dec .loop tf512 (by simp) key t0 t1 blk hb
+  · intro hb
+    rw [← CC.Src.src_threefish1024_encrypt_block, ← CC.Src.src_threefish1024_decrypt_block,
+      ← CC.Src.src_threefish1024_with_tweak]
+    exact enc_dec .unrolled tf1024 (by simp) key t0 t1 blk hb
+  · intro hb
+    rw [← CC.Src.src_threefish1024_encrypt_block_no_unroll, ← CC.Src.src_threefish1024_decrypt_block_no_unroll,
+      ← CC.Src.src_threefish1024_with_tweak]
+    exact enc_dec .loop tf1024 (by simp) key t0 t1 blk hb
+
 end CC.Thm.C10
